@@ -198,24 +198,33 @@ def crashDisks (nd : Node) : List Op → List Disk
   | [] => [nd.disk]
   | op :: ops => prefixDisks nd.disk (writesOf nd op) ++ crashDisks (step nd op) ops
 
+/-- state of the stored snapshot (`snapshot_data`), the empty state when there is none -/
+def snapBase (d : Disk) : State :=
+  match d.snapData with
+  | some s => s.dataState
+  | none => {}
+
+/-- position of the stored snapshot: log entries up to it are skipped by the replay -/
+def snapFrom (d : Disk) : Option Nat :=
+  match d.snapData with
+  | some s => oidx s.dataLast
+  | none => none
+
+/-- loop body of `replay_log`: only `Normal` entries are applied -/
+def replayStep (acc : Outcome State) (e : Entry) : Outcome State :=
+  acc.bind fun st =>
+    match e.payload with
+    | .normal c => applyCmd st c
+    | _ => .ok st
+
 /-- `replay_log`: start from the stored snapshot (if any), then apply the `Normal` entries of the log
 above the snapshot's position and up to the recorded applied position, in index order -/
 def replayState (d : Disk) : Outcome State :=
-  let base : State := match d.snapData with
-    | some s => s.dataState
-    | none => {}
-  let from? : Option Nat := match d.snapData with
-    | some s => oidx s.dataLast
-    | none => none
   match d.lastApplied with
-  | none => .ok base
+  | none => .ok (snapBase d)
   | some la =>
-    (d.ls.log.filter (fun e => above from? e.id.index && e.id.index ≤ la.index)).foldl
-      (fun acc e => acc.bind fun st =>
-        match e.payload with
-        | .normal c => applyCmd st c
-        | _ => .ok st)
-      (.ok base)
+    (d.ls.log.filter (fun e => above (snapFrom d) e.id.index && decide (e.id.index ≤ la.index))).foldl
+      replayStep (.ok (snapBase d))
 
 /-- `RocksStore::open_with_shared_state`: `recover_metadata` (applied position, membership) and `replay_log` -/
 def reopen (d : Disk) : Outcome Node :=
